@@ -44,8 +44,15 @@ def load_known():
     if os.path.isdir(d):
         for fn in sorted(os.listdir(d)):
             if fn.endswith(".json"):
-                with open(os.path.join(d, fn)) as f:
-                    out += json.load(f)["findings"]
+                for attempt in range(5):      # a fragment may be in the middle of being rewritten by an editor
+                    try:
+                        with open(os.path.join(d, fn)) as f:
+                            out += json.load(f)["findings"]
+                        break
+                    except ValueError:
+                        if attempt == 4:
+                            raise
+                        time.sleep(0.5)
     return out
 
 
